@@ -850,6 +850,56 @@ func (n *node) onPoint(ctx context.Context, name string) {
 	}
 }
 
+// neverAnsweredProbes is the logical bound behind "a call was never answered": the kernel
+// handles its requests one per loop iteration and picks among the ready ones at random, so
+// a request that is still waiting after the kernel has served this many snapshot requests
+// sent after it (each a full loop iteration) will not be served any more.
+const neverAnsweredProbes = 300
+
+// awaitCall waits for a Handle*/replay call running in another goroutine. While it is
+// outstanding (and not parked on purpose by hold) the kernel is made to serve snapshot
+// requests; neverAnsweredProbes of them, over at least five seconds, without the call
+// returning is the verdict that the call will never return.
+func (n *node) awaitCall(method string, done <-chan struct{}, hold *voteHold, cancel context.CancelFunc) {
+	if hold != nil {
+		select {
+		case <-done:
+			return
+		case <-hold.release:
+		}
+	}
+	served := 0
+	start := time.Now()
+	for {
+		select {
+		case <-done:
+			return
+		case <-time.After(15 * time.Millisecond):
+		}
+		if n.dead.Load() || n.ctx.Err() != nil {
+			<-done // the incarnation is over: its context ends the call
+			return
+		}
+		if _, _, ok := n.views(); !ok {
+			continue // a kernel that does not answer is judged elsewhere
+		}
+		served++
+		if served >= neverAnsweredProbes && time.Since(start) > 5*time.Second {
+			select {
+			case <-done:
+				return
+			default:
+			}
+			n.cs.logf("CALL NEVER ANSWERED %s", method)
+			n.cs.violate("C09", "C09:call-never-answered:"+method,
+				fmt.Sprintf("%s did not return although the kernel served %d snapshot requests sent after it (%.0f s): whatever it waits for will not arrive", method, served, time.Since(start).Seconds()), nil)
+			cancel()
+			<-done
+			return
+		}
+	}
+}
+
 // deliverPH hands a proposed header to the mirror.
 // livelock is true when the call passed its RESTART label more than restartBudget times.
 func (n *node) deliverPH(ph tmconsensus.ProposedHeader) (res tmconsensus.HandleProposedHeaderResult, ok bool) {
@@ -860,15 +910,22 @@ func (n *node) deliverPH(ph tmconsensus.ProposedHeader) (res tmconsensus.HandleP
 	defer cancel()
 	lg := &loopGuard{cancel: cancel}
 	ctx = context.WithValue(ctx, loopGuardKey{}, lg)
-	p, key, msg, stack := verifkit.Guard(func() {
-		if h, rec := n.mapped(); h != nil {
-			fb := h.HandleProposedHeader(ctx, ph)
-			res = rec.ph
-			n.checkFeedback(fb, "HandleProposedHeader", res.String())
-		} else {
-			res = n.m.HandleProposedHeader(ctx, ph)
-		}
-	})
+	var p bool
+	var key, msg, stack string
+	done := make(chan struct{})
+	go func() {
+		defer close(done)
+		p, key, msg, stack = verifkit.Guard(func() {
+			if h, rec := n.mapped(); h != nil {
+				fb := h.HandleProposedHeader(ctx, ph)
+				res = rec.ph
+				n.checkFeedback(fb, "HandleProposedHeader", res.String())
+			} else {
+				res = n.m.HandleProposedHeader(ctx, ph)
+			}
+		})
+	}()
+	n.awaitCall("HandleProposedHeader", done, nil, cancel)
 	if p {
 		n.callerPanic(key, msg, stack)
 		return res, false
@@ -909,15 +966,23 @@ func (n *node) deliverPrevotesHeld(p tmconsensus.PrevoteSparseProof, hold *voteH
 		ctx = context.WithValue(ctx, voteHoldKey{}, hold)
 	}
 	var res tmconsensus.HandleVoteProofsResult
-	if pn, key, msg, stack := verifkit.Guard(func() {
-		if h, rec := n.mapped(); h != nil {
-			fb := h.HandlePrevoteProofs(ctx, p)
-			res = rec.v
-			n.checkFeedback(fb, "HandlePrevoteProofs", res.String())
-		} else {
-			res = n.m.HandlePrevoteProofs(ctx, p)
-		}
-	}); pn {
+	var pn bool
+	var key, msg, stack string
+	done := make(chan struct{})
+	go func() {
+		defer close(done)
+		pn, key, msg, stack = verifkit.Guard(func() {
+			if h, rec := n.mapped(); h != nil {
+				fb := h.HandlePrevoteProofs(ctx, p)
+				res = rec.v
+				n.checkFeedback(fb, "HandlePrevoteProofs", res.String())
+			} else {
+				res = n.m.HandlePrevoteProofs(ctx, p)
+			}
+		})
+	}()
+	n.awaitCall("HandlePrevoteProofs", done, hold, cancel)
+	if pn {
 		n.callerPanic(key, msg, stack)
 		return res, false
 	}
@@ -941,15 +1006,23 @@ func (n *node) deliverPrecommitsHeld(p tmconsensus.PrecommitSparseProof, hold *v
 		ctx = context.WithValue(ctx, voteHoldKey{}, hold)
 	}
 	var res tmconsensus.HandleVoteProofsResult
-	if pn, key, msg, stack := verifkit.Guard(func() {
-		if h, rec := n.mapped(); h != nil {
-			fb := h.HandlePrecommitProofs(ctx, p)
-			res = rec.v
-			n.checkFeedback(fb, "HandlePrecommitProofs", res.String())
-		} else {
-			res = n.m.HandlePrecommitProofs(ctx, p)
-		}
-	}); pn {
+	var pn bool
+	var key, msg, stack string
+	done := make(chan struct{})
+	go func() {
+		defer close(done)
+		pn, key, msg, stack = verifkit.Guard(func() {
+			if h, rec := n.mapped(); h != nil {
+				fb := h.HandlePrecommitProofs(ctx, p)
+				res = rec.v
+				n.checkFeedback(fb, "HandlePrecommitProofs", res.String())
+			} else {
+				res = n.m.HandlePrecommitProofs(ctx, p)
+			}
+		})
+	}()
+	n.awaitCall("HandlePrecommitProofs", done, hold, cancel)
+	if pn {
 		n.callerPanic(key, msg, stack)
 		return res, false
 	}
@@ -972,12 +1045,22 @@ func (n *node) deliverReplay(hd tmconsensus.Header, proof tmconsensus.CommitProo
 	case <-ctx.Done():
 		return nil, false
 	}
-	select {
-	case r := <-resp:
-		return r.Err, true
-	case <-ctx.Done():
-		return nil, false
+	var out tmelink.ReplayedHeaderResponse
+	got := false
+	done := make(chan struct{})
+	go func() {
+		defer close(done)
+		select {
+		case out = <-resp:
+			got = true
+		case <-ctx.Done():
+		}
+	}()
+	n.awaitCall("ReplayedHeaderRequest", done, nil, cancel)
+	if got {
+		return out.Err, true
 	}
+	return nil, false
 }
 
 // smEnter plays the state machine entering (h, r) with the given key.
